@@ -131,6 +131,37 @@ func raceChild(d time.Duration) error {
 		})
 	}
 	spawn(func() { hosts.VerifExpire(); dhcp.VerifExpire(); time.Sleep(500 * time.Microsecond) })
+	// in a private mount namespace: a scratch /etc whose hosts file lists names with several addresses in the order
+	// an owner wrote them (not sorted) and is rewritten all the time, so that every few lookups work on a fresh table
+	multiHosts := false
+	if dir, err := os.MkdirTemp("", "nxrace"); err == nil {
+		defer os.RemoveAll(dir)
+		if bindOver(dir, "/etc") == nil {
+			multiHosts = true
+			variants := []string{
+				"127.0.0.1 localhost\n10.0.1.9 multi.example nas\n10.0.1.5 multi.example\n10.0.1.7 multi.example\nfd00::9 multi.example\nfd00::2 multi.example\n",
+				"127.0.0.1 localhost\n10.0.1.8 multi.example\n10.0.1.3 multi.example nas\n10.0.1.2 nas\n",
+				"127.0.0.1 localhost\n10.9.9.9 multi.example\n10.1.1.1 multi.example\n10.5.5.5 multi.example\n10.0.0.1 multi.example\nfd00::f nas\nfd00::1 nas\n"}
+			k := 0
+			wh := func() {
+				k++
+				_ = os.WriteFile("/etc/hosts.tmp", []byte(variants[k%len(variants)]), 0644)
+				t := time.Unix(1700000000+int64(k), 0)
+				_ = os.Chtimes("/etc/hosts.tmp", t, t)
+				_ = os.Rename("/etc/hosts.tmp", "/etc/hosts")
+			}
+			wh()
+			spawn(func() { wh(); time.Sleep(time.Millisecond) })
+			lr := discovery.Resolver{hosts}
+			for i := 0; i < 4; i++ {
+				spawn(func() {
+					_ = lr.LookupHost("multi.example.")
+					_ = lr.LookupHost("nas.")
+					_ = lr.LookupAddr("10.0.1.9")
+				})
+			}
+		}
+	}
 	// the other table sources through the public interface
 	merlin, ubios, fw := &discovery.Merlin{}, &discovery.Ubios{}, &discovery.Firewalla{}
 	for i := 0; i < 2; i++ {
@@ -228,6 +259,9 @@ func raceChild(d time.Duration) error {
 			spawn(func() {
 				mu2.Lock()
 				name := []string{"a.example", "b.example", "localhost", "4.3.2.10.in-addr.arpa", "dev3.local"}[r2.intn(5)]
+				if multiHosts && r2.coin(35) {
+					name = []string{"multi.example", "nas", "MULTI.example"}[r2.intn(3)]
+				}
 				typ := []int{1, 28, 12}[r2.intn(3)]
 				if r2.coin(40) {
 					typ = r2.intn(65536) // any type, assigned or not, mostly never seen before
